@@ -1,5 +1,5 @@
 (* C13: soundness of the value-class fact checker (FactClass.v):
-     check_class_func R f = true  ->  every event of every execution of f
+     check_class_func R (n_ctor N) f = true  ->  every event of every execution of f
    (any fuel, any arguments in the classes reported for the parameters, any
    store, any caller context; also executions that end in an error or run out
    of fuel) satisfies the class / context fact reported for it. *)
@@ -275,6 +275,26 @@ Proof.
   - destruct (Z.eqb_spec d 0); cbn in H; [discriminate|]. inversion H; auto.
   - cbn in H. inversion H; auto.
 Qed.
+
+Lemma ievals_lits : forall n s D mu C args vs mu' xs,
+  snd (ievals n s D mu C args) = ROk (vs, mu') -> lit_nums args = Some xs -> vs = map VNum xs.
+Proof.
+  induction n as [|n IH]; intros s D mu C args vs mu' xs H Hl; [discriminate|].
+  rewrite ievals_S in H. destruct args as [|e r]; cbn [ievals_body lit_nums] in *.
+  - inversion H; inversion Hl; subst. reflexivity.
+  - apply snd_mbind_inv in H. destruct H as ([v mu1] & Hv & H).
+    apply snd_mbind_inv in H. destruct H as ([vs' mu2] & Hvs & H). cbn in H. inversion H; subst.
+    apply ieval_denotes in Hv.
+    destruct e; try discriminate.
+    + destruct (lit_nums r) as [ys|] eqn:El; [|discriminate]. inversion Hl; subst.
+      cbn in Hv. subst. cbn. f_equal. eapply IH; eauto.
+    + destruct (Z.eqb_spec d 0); [discriminate|].
+      destruct (lit_nums r) as [ys|] eqn:El; [|discriminate]. inversion Hl; subst.
+      cbn in Hv. destruct Hv as [_ ->]. cbn. f_equal. eapply IH; eauto.
+Qed.
+
+Lemma as_nums_map : forall xs, as_nums (map VNum xs) = ROk xs.
+Proof. induction xs as [|x xs IH]; cbn; [reflexivity|]. rewrite IH. reflexivity. Qed.
 
 Lemma at_var_holds : forall s e c v, denotes s e v -> sat_cls c v = true -> facts_hold s (at_var e c).
 Proof.
@@ -649,9 +669,9 @@ Definition osat (G' : cenv) (r : ioutcome ann * store) : Prop :=
 
 (* one-step unfoldings of the checker (its block checker is a local fixpoint) *)
 Lemma check_if1_eq : forall G K ph c body,
-  check_stmt R G K (ASIf1 ph c body) =
+  check_stmt R (n_ctor N) G K (ASIf1 ph c body) =
   if check_expr R G K c then
-    match check_block R (crefine G (implied c true)) K body with
+    match check_block R (n_ctor N) (crefine G (implied c true)) K body with
     | Some Gb => let Gj := cjoin Gb (crefine G (implied c false)) in
                  if check_phis Gj ph then Some (set_phis Gj ph) else None
     | None => None
@@ -660,9 +680,9 @@ Lemma check_if1_eq : forall G K ph c body,
 Proof. reflexivity. Qed.
 
 Lemma check_if_eq : forall G K ph c ift iff,
-  check_stmt R G K (ASIf ph c ift iff) =
+  check_stmt R (n_ctor N) G K (ASIf ph c ift iff) =
   if check_expr R G K c then
-    match check_block R (crefine G (implied c true)) K ift, check_block R (crefine G (implied c false)) K iff with
+    match check_block R (n_ctor N) (crefine G (implied c true)) K ift, check_block R (n_ctor N) (crefine G (implied c false)) K iff with
     | Some Gtr, Some Gfa => let Gj := cjoin Gtr Gfa in
                             if check_phis Gj ph then Some (set_phis Gj ph) else None
     | _, _ => None
@@ -671,10 +691,10 @@ Lemma check_if_eq : forall G K ph c ift iff,
 Proof. reflexivity. Qed.
 
 Lemma check_while_eq : forall G K ph c body,
-  check_stmt R G K (ASWhile ph c body) =
+  check_stmt R (n_ctor N) G K (ASWhile ph c body) =
   let Gh := set_phis G ph in
   if cleq G Gh && check_phis Gh ph && check_expr R Gh K c then
-    match check_block R (crefine Gh (implied c true)) K body with
+    match check_block R (n_ctor N) (crefine Gh (implied c true)) K body with
     | Some Gb => if cleq Gb Gh then Some (crefine Gh (implied c false)) else None
     | None => None
     end
@@ -682,12 +702,12 @@ Lemma check_while_eq : forall G K ph c body,
 Proof. reflexivity. Qed.
 
 Lemma check_for_eq : forall G K ph p it body,
-  check_stmt R G K (ASFor ph p it body) =
+  check_stmt R (n_ctor N) G K (ASFor ph p it body) =
   let Gh := set_phis G ph in
   if check_expr R G K it && cleq G Gh && check_phis Gh ph then
     match bind_top p Gh with
     | Some Gtr =>
-        match check_block R Gtr K body with
+        match check_block R (n_ctor N) Gtr K body with
         | Some Gb => if cleq Gb Gh then Some Gh else None
         | None => None
         end
@@ -697,17 +717,17 @@ Lemma check_for_eq : forall G K ph p it body,
 Proof. reflexivity. Qed.
 
 Lemma check_context_eq : forall G K x e body,
-  check_stmt R G K (ASContext x e body) =
+  check_stmt R (n_ctor N) G K (ASContext x e body) =
   if check_expr R G (Some CReal) e then
     match x with
-    | Some (a, x) => if leq c_top (rep a) then check_block R (cset G x c_top) (static_ctx e) body else None
-    | None => check_block R G (static_ctx e) body
+    | Some (a, x) => if leq c_top (rep a) then check_block R (n_ctor N) (cset G x c_top) (static_ctx (n_ctor N) e) body else None
+    | None => check_block R (n_ctor N) G (static_ctx (n_ctor N) e) body
     end
   else None.
 Proof. reflexivity. Qed.
 
 Lemma check_block_cons : forall G K st r,
-  check_block R G K (st :: r) = match check_stmt R G K st with Some G' => check_block R G' K r | None => None end.
+  check_block R (n_ctor N) G K (st :: r) = match check_stmt R (n_ctor N) G K st with Some G' => check_block R (n_ctor N) G' K r | None => None end.
 Proof. reflexivity. Qed.
 
 (* ---- binding *)
@@ -775,16 +795,16 @@ Proof.
 Qed.
 
 Definition stmt_sound_at (n : nat) : Prop :=
-  (forall G K G' s D mu C st, check_stmt R G K st = Some G' -> senv_ok s G -> kctx K C ->
+  (forall G K G' s D mu C st, check_stmt R (n_ctor N) G K st = Some G' -> senv_ok s G -> kctx K C ->
      mok (osat G') (iexec n s D mu C st)) /\
-  (forall G K G' s D mu C b, check_block R G K b = Some G' -> senv_ok s G -> kctx K C ->
+  (forall G K G' s D mu C b, check_block R (n_ctor N) G K b = Some G' -> senv_ok s G -> kctx K C ->
      mok (osat G') (iexec_block n s D mu C b)) /\
   (forall K ph c body Gh Gb s D mu C,
-     check_expr R Gh K c = true -> check_block R (crefine Gh (implied c true)) K body = Some Gb ->
+     check_expr R Gh K c = true -> check_block R (n_ctor N) (crefine Gh (implied c true)) K body = Some Gb ->
      cleq Gb Gh = true -> check_phis Gh ph = true -> senv_ok s Gh -> kctx K C ->
      mok (osat (crefine Gh (implied c false))) (iexec n s D mu C (ASWhile ph c body))) /\
   (forall K ph p body Gh Gtr Gb s D mu C l i,
-     bind_top p Gh = Some Gtr -> check_block R Gtr K body = Some Gb ->
+     bind_top p Gh = Some Gtr -> check_block R (n_ctor N) Gtr K body = Some Gb ->
      cleq Gb Gh = true -> check_phis Gh ph = true -> senv_ok s Gh -> kctx K C ->
      mok (osat Gh) (ifor_loop n s D mu C ph p l i body)).
 
@@ -805,7 +825,7 @@ Proof.
   - split; [|split; [|split]]; intros; apply mok_liftr; discriminate.
   - (* the loops first: they are used by the statement case *)
     assert (W : forall K ph c body Gh Gb s D mu C,
-     check_expr R Gh K c = true -> check_block R (crefine Gh (implied c true)) K body = Some Gb ->
+     check_expr R Gh K c = true -> check_block R (n_ctor N) (crefine Gh (implied c true)) K body = Some Gb ->
      cleq Gb Gh = true -> check_phis Gh ph = true -> senv_ok s Gh -> kctx K C ->
      mok (osat (crefine Gh (implied c false))) (iexec (S n) s D mu C (ASWhile ph c body))).
     { intros K ph c body Gh Gb s D mu C Hc Hbody Hle Hph Hs HK.
@@ -823,7 +843,7 @@ Proof.
         + apply mok_ret. exact I.
       - apply mok_ret. unfold osat. cbn. apply senv_ok_crefine; auto. }
     assert (F : forall K ph p body Gh Gtr Gb s D mu C l i,
-     bind_top p Gh = Some Gtr -> check_block R Gtr K body = Some Gb ->
+     bind_top p Gh = Some Gtr -> check_block R (n_ctor N) Gtr K body = Some Gb ->
      cleq Gb Gh = true -> check_phis Gh ph = true -> senv_ok s Gh -> kctx K C ->
      mok (osat Gh) (ifor_loop (S n) s D mu C ph p l i body)).
     { intros K ph p body Gh Gtr Gb s D mu C l i Hbt Hbody Hle Hph Hs HK.
@@ -857,7 +877,7 @@ Proof.
         -- rewrite cget_cset_same. apply sat_top.
         -- rewrite cget_cset_other by auto. apply Hs; auto.
       * (* if1 *) rewrite check_if1_eq in Hc. destruct (check_expr R G K c) eqn:He; [|discriminate].
-        destruct (check_block R (crefine G (implied c true)) K body) as [Gb|] eqn:Hb; [|discriminate].
+        destruct (check_block R (n_ctor N) (crefine G (implied c true)) K body) as [Gb|] eqn:Hb; [|discriminate].
         cbn zeta in Hc. destruct (check_phis _ ph) eqn:Hp; [|discriminate]. inversion Hc; subst.
         eapply mok_bind; [eapply ieval_class_sound; eauto|]. intros [vc mu1] Evc _.
         eapply mok_bind; [apply mok_liftr; intros b E; exact (as_bool_inv _ _ E)|]. intros b _ ->.
@@ -867,8 +887,8 @@ Proof.
            intros [o m] Ho. unfold osat in *. cbn [fst] in *. destruct o; auto. apply senv_ok_cjoin_l; auto.
         -- apply mok_ret. unfold osat. cbn. apply senv_ok_cjoin_r. apply senv_ok_crefine; auto.
       * (* if *) rewrite check_if_eq in Hc. destruct (check_expr R G K c) eqn:He; [|discriminate].
-        destruct (check_block R (crefine G (implied c true)) K ift) as [Gtr|] eqn:Hb1; [|discriminate].
-        destruct (check_block R (crefine G (implied c false)) K iff) as [Gfa|] eqn:Hb2; [|discriminate].
+        destruct (check_block R (n_ctor N) (crefine G (implied c true)) K ift) as [Gtr|] eqn:Hb1; [|discriminate].
+        destruct (check_block R (n_ctor N) (crefine G (implied c false)) K iff) as [Gfa|] eqn:Hb2; [|discriminate].
         cbn zeta in Hc. destruct (check_phis _ ph) eqn:Hp; [|discriminate]. inversion Hc; subst.
         eapply mok_bind; [eapply ieval_class_sound; eauto|]. intros [vc mu1] Evc _.
         eapply mok_bind; [apply mok_liftr; intros b E; exact (as_bool_inv _ _ E)|]. intros b _ ->.
@@ -881,14 +901,14 @@ Proof.
       * (* while *) rewrite check_while_eq in Hc. cbn zeta in Hc.
         destruct (cleq G (set_phis G ph) && check_phis (set_phis G ph) ph && check_expr R (set_phis G ph) K c) eqn:H1;
           [|discriminate]. bsp.
-        destruct (check_block R (crefine (set_phis G ph) (implied c true)) K body) as [Gb|] eqn:Hb; [|discriminate].
+        destruct (check_block R (n_ctor N) (crefine (set_phis G ph) (implied c true)) K body) as [Gb|] eqn:Hb; [|discriminate].
         destruct (cleq Gb (set_phis G ph)) eqn:Hle; [|discriminate]. inversion Hc; subst.
         eapply W; eauto. eapply senv_ok_mono; eauto.
       * (* for *) rewrite check_for_eq in Hc. cbn zeta in Hc.
         destruct (check_expr R G K it && cleq G (set_phis G ph) && check_phis (set_phis G ph) ph) eqn:H1;
           [|discriminate]. bsp.
         destruct (bind_top p (set_phis G ph)) as [Gtr|] eqn:Hbt; [|discriminate].
-        destruct (check_block R Gtr K body) as [Gb|] eqn:Hb; [|discriminate].
+        destruct (check_block R (n_ctor N) Gtr K body) as [Gb|] eqn:Hb; [|discriminate].
         destruct (cleq Gb (set_phis G ph)) eqn:Hle; [|discriminate]. inversion Hc; subst.
         eapply mok_bind; [eapply ieval_class_sound; eauto|]. intros [vi mu1] _ _.
         eapply mok_bind; [apply mok_liftr; intros x E; exact I|]. intros [l vs] _ _.
@@ -897,9 +917,19 @@ Proof.
         destruct (check_expr R G (Some CReal) e) eqn:He; [|discriminate].
         eapply mok_bind; [eapply ieval_class_sound; eauto; intros c0 E; inversion E; reflexivity|].
         intros [vc mu1] Evc _. destruct vc as [| |C'| | |]; try apply mok_fail.
-        assert (HK' : kctx (static_ctx e) C').
-        { intros k Ek. destruct e; cbn in Ek; try discriminate. inversion Ek; subst.
-          apply ieval_denotes in Evc. cbn in Evc. inversion Evc; reflexivity. }
+        assert (HK' : kctx (static_ctx (n_ctor N) e) C').
+        { intros k Ek. destruct e; cbn [static_ctx] in Ek; try discriminate.
+          - inversion Ek; subst. apply ieval_denotes in Evc. cbn in Evc. inversion Evc; reflexivity.
+          - destruct (lit_nums args) as [xs|] eqn:El; [|discriminate].
+            destruct (n_ctor N k0 xs) as [c1|] eqn:Ec; inversion Ek; subst.
+            destruct n as [|n']; [discriminate|]. rewrite ieval_S in Evc. cbn [ieval_body] in Evc.
+            apply snd_mbind_inv in Evc. destruct Evc as ([vs mu2] & Hvs & Evc).
+            rewrite (ievals_lits _ _ _ _ _ _ _ _ _ Hvs El) in Evc.
+            apply snd_mbind_inv in Evc. destruct Evc as (ys & Hys & Evc). cbn [snd liftr] in Hys.
+            rewrite as_nums_map in Hys. inversion Hys; subst ys.
+            apply snd_mbind_inv in Evc. destruct Evc as (c2 & Hc2 & Evc). cbn [snd liftr] in Hc2.
+            rewrite Ec in Hc2. cbn in Hc2. inversion Hc2; subst c2.
+            cbn in Evc. inversion Evc; reflexivity. }
         destruct x as [[a x]|].
         -- destruct (leq c_top (rep a)) eqn:Ea; [|discriminate].
            eapply mok_bind with (Q1 := fun _ => True).
@@ -919,7 +949,7 @@ Proof.
       intros G K G' s D mu C b Hc Hs HK. rewrite iexec_block_S.
       destruct b as [|st r]; cbn [iexec_block_body].
       * cbn in Hc. inversion Hc; subst. apply mok_ret. exact Hs.
-      * rewrite check_block_cons in Hc. destruct (check_stmt R G K st) as [G1|] eqn:E1; [|discriminate].
+      * rewrite check_block_cons in Hc. destruct (check_stmt R (n_ctor N) G K st) as [G1|] eqn:E1; [|discriminate].
         eapply mok_bind; [eapply IHs; eauto|]. intros [o mu1] _ Ho. unfold osat in Ho. cbn [fst] in Ho.
         destruct o as [s' D'|v]; [eapply IHb; eauto | apply mok_ret; exact I].
 Qed.
@@ -939,14 +969,14 @@ Proof.
     destruct IH as [Ht Hr]. split; [|exact Hr]. constructor; [exact H2 | exact Ht].
 Qed.
 
-Theorem class_facts_sound_call : forall f, check_class_func R f = true ->
+Theorem class_facts_sound_call : forall f, check_class_func R (n_ctor N) f = true ->
   forall n vs mu C,
     Forall2 (fun ax v => sat_cls (rep (fst ax)) v = true) (af_params f) vs ->
     Forall evok (fst (icall ann N P n f vs mu C)).
 Proof.
   intros f Hc [|n] vs mu C Hargs; [constructor|].
   unfold check_class_func in Hc.
-  destruct (check_block R (param_env (af_params f)) (af_ctx f) (af_body f)) as [G'|] eqn:Hb; [|discriminate].
+  destruct (check_block R (n_ctor N) (param_env (af_params f)) (af_ctx f) (af_body f)) as [G'|] eqn:Hb; [|discriminate].
   unfold icall.
   destruct (ibind_params_sound (af_params f) vs [] [] [] Hargs) as [Ht Hr].
   { intros x v E. discriminate. }
